@@ -199,6 +199,9 @@ func tailInlineOverlay(pkgs []*packages.Package, base map[string][]byte) map[str
 			if multi && p.Fset.Position(callee.End()).Line-p.Fset.Position(callee.Pos()).Line > 40 {
 				return nil // copies of a long body help nobody
 			}
+			if normInlineMulti && knownFuncNames[callee.Name.Name] {
+				return nil // at these levels only helpers that came with a rewrite are dissolved; the functions the rules anchor on stay
+			}
 			sig := fn.Type().(*types.Signature)
 			if sig.Variadic() || sig.TypeParams() != nil {
 				return nil
